@@ -7,6 +7,8 @@ about the coefficient tables the translator regenerates from `_convolve.cpp` on 
 import Mahotas.Proofs.C17
 import Mahotas.Proofs.C17PR
 import Mahotas.Proofs.C17Resid
+import Mahotas.Proofs.C17General
+import Mahotas.Proofs.C17Energy
 import Mathlib.Algebra.Order.Ring.Rat
 namespace Mahotas.C17
 open Mahotas
@@ -33,6 +35,10 @@ def qmfWithin (eps : Rat) (t : List (Int × Nat)) : Bool :=
 def tableTol : List Rat :=
   [0, 13 / 100000000, 19 / 100000000, 250 / 100000000, 17 / 100000000, 7 / 100000000, 81 / 100000000,
    15 / 100000000, 7 / 100000000, 11 / 100000000]
+
+/-- the inner product of two `N0 × N1` images -/
+def inner2 {K : Type} [Field K] (N0 N1 : Nat) (u v : Im K) : K :=
+  sumTo N0 (fun y => sumTo N1 (fun x => u y x * v y x))
 
 end Mahotas.C17
 
@@ -381,3 +387,246 @@ example : ([3 / 5, 6 / 5, 2 / 5, -1 / 5 + 1 / 100] : List ℚ).length ∈ errLen
     errConst ([3 / 5, 6 / 5, 2 / 5, -1 / 5 + 1 / 100] : List ℚ) ≤ 279 / 20000 ∧
     279 / 20000 ≤ errConst ([3 / 5, 6 / 5, 2 / 5, -1 / 5 + 1 / 100] : List ℚ) := by
   refine ⟨?_, ?_, ?_⟩ <;> decide +kernel
+
+/-! ## Round 3: every even filter length; orthogonality of the Haar transform -/
+
+/-- **C17-T6 (`pr_exact_row_general`: rows, EVERY even number of coefficients).** One length-independent theorem
+replacing the per-length generated proofs: for every coefficient list with an even number `n ≥ 2` of entries that
+satisfies the quadrature-mirror identities `Σ_k c_k c_{k+2s} = 2·δ_s` (`s < n/2`) exactly, over every field with
+`2 ≠ 0`, the model of `iwavelet` applied to the model of `wavelet` returns every sample of every even-length row at
+the positions `x ≥ n − 2` — for every row content. (Proof: `rowIdentity_general`, `Proofs/C17General.lean`: closed
+forms of the two kernels as finite sums, `2·iw(w f)[x] = Σ_{a ≡ b (2)} c_a c_b f[x + a − b]` — the mixed-parity
+products cancel termwise —, regrouped by the lag `a − b`.) -/
+theorem C17_pr_exact_row_general {K : Type} [Field K] (h2 : (2 : K) ≠ 0) (cs : List K)
+    (heven : cs.length % 2 = 0) (hpos : 2 ≤ cs.length) (hq : qmfExact cs) (N : Nat) (hN : N % 2 = 0)
+    (f : Nat → K) (x : Nat) (hx : cs.length ≤ x + 2) (hxN : x < N) :
+    iwaveletRow cs N (waveletRow cs N f) x = f x := by
+  rw [rowIdentity_general h2 cs heven hpos N hN f x hx hxN, errRow_eq_zero cs heven hpos hq, add_zero]
+
+/-- **C17-T6 (`pr_exact`, images, every even number of coefficients).** With exactly quadrature-mirror
+coefficients of any even length `n ≥ 2`, `idaubechies(daubechies(f))` returns `f` at every pixel `(y, x)` with
+`y, x ≥ n − 2` of every image with even sides. -/
+theorem C17_pr_exact_general {K : Type} [Field K] (h2 : (2 : K) ≠ 0) (cs : List K)
+    (heven : cs.length % 2 = 0) (hpos : 2 ≤ cs.length) (hq : qmfExact cs) (N0 N1 : Nat)
+    (h0 : N0 % 2 = 0) (h1 : N1 % 2 = 0) (f : Im K) (y x : Nat)
+    (hy : cs.length ≤ y + 2) (hyN : y < N0) (hx : cs.length ≤ x + 2) (hxN : x < N1) :
+    idaubechies2 cs N0 N1 (daubechies2 cs N0 N1 f) y x = f y x := by
+  show iwaveletRow cs N1 (fun x' => iwaveletRow cs N0
+      (fun k => waveletRow cs N0 (fun k' => waveletRow cs N1 (f k') x') k) y) x = f y x
+  have e : (fun x' => iwaveletRow cs N0
+      (fun k => waveletRow cs N0 (fun k' => waveletRow cs N1 (f k') x') k) y)
+      = waveletRow cs N1 (f y) := by
+    funext x'
+    exact C17_pr_exact_row_general h2 cs heven hpos hq N0 h0 (fun k' => waveletRow cs N1 (f k') x') y hy hyN
+  rw [e]
+  exact C17_pr_exact_row_general h2 cs heven hpos hq N1 h1 (f y) x hx hxN
+
+/-- **C17-T6 (reconstruction after `wavelet_center`, every even number of coefficients).** As
+`C17_reconstruction_centered`, for every even filter length. -/
+theorem C17_reconstruction_centered_general {K : Type} [Field K] (h2 : (2 : K) ≠ 0) (cs : List K)
+    (heven : cs.length % 2 = 0) (hpos : 2 ≤ cs.length) (hq : qmfExact cs) (N0 N1 d0 d1 M0 M1 : Nat) (cval : K)
+    (hM0 : M0 % 2 = 0) (hM1 : M1 % 2 = 0) (hd0 : cs.length ≤ d0 + 2) (hd1 : cs.length ≤ d1 + 2)
+    (hf0 : d0 + N0 ≤ M0) (hf1 : d1 + N1 ≤ M1) (f : Im K) (y x : Nat) (hy : y < N0) (hx : x < N1) :
+    decenter d0 d1 (idaubechies2 cs M0 M1 (daubechies2 cs M0 M1 (center N0 N1 d0 d1 cval f))) y x = f y x := by
+  show idaubechies2 cs M0 M1 (daubechies2 cs M0 M1 (center N0 N1 d0 d1 cval f)) (y + d0) (x + d1) = f y x
+  rw [C17_pr_exact_general h2 cs heven hpos hq M0 M1 hM0 hM1 _ (y + d0) (x + d1)
+    (by omega) (by omega) (by omega) (by omega)]
+  exact C17_decenter_center N0 N1 d0 d1 cval f y x hy hx
+
+/-- **C17-T6 (reconstruction error, rows, every even number of coefficients).** The statement of
+`C17_reconstruction_error_bound_row` without the restriction to the lengths 2 … 20: for **every** coefficient list
+with an even number `n ≥ 2` of entries and no other hypothesis, `iwavelet(wavelet f)[x] = f[x] + errRow cs N f x` at
+every `x ≥ n − 2`, `errRow` linear in the residuals of the quadrature-mirror identities; hence
+`|iwavelet(wavelet f)[x] − f[x]| ≤ errConst cs · M`, and `≤ (n − 1)/2 · ε · M` when the identities hold within `ε`. -/
+theorem C17_reconstruction_error_bound_row_general {K : Type} [Field K] [LinearOrder K] [IsStrictOrderedRing K]
+    (cs : List K) (heven : cs.length % 2 = 0) (hpos : 2 ≤ cs.length) (N : Nat) (hN : N % 2 = 0)
+    (f : Nat → K) (M : K) (hM : 0 ≤ M) (hf : ∀ p, p < N → |f p| ≤ M) (x : Nat) (hx : cs.length ≤ x + 2)
+    (hxN : x < N) :
+    iwaveletRow cs N (waveletRow cs N f) x = f x + errRow cs N f x ∧
+    |iwaveletRow cs N (waveletRow cs N f) x - f x| ≤ errConst cs * M ∧
+    (∀ eps : K, (∀ s, s < cs.length / 2 → |resid cs s| ≤ eps) →
+      |iwaveletRow cs N (waveletRow cs N f) x - f x| ≤ ((cs.length - 1 : Nat) : K) / 2 * eps * M) := by
+  have hid := rowIdentity_general (two_ne_zero) cs heven hpos N hN f x hx hxN
+  have hb : |iwaveletRow cs N (waveletRow cs N f) x - f x| ≤ errConst cs * M := by
+    rw [hid, add_sub_cancel_left]
+    exact abs_errRow_le cs N f M hM hf x
+  refine ⟨hid, hb, ?_⟩
+  intro eps heps
+  exact le_trans hb (mul_le_mul_of_nonneg_right (errConst_le cs heven eps heps) hM)
+
+/-- **C17-T6 (`reconstruction_error_bound`, images, every even number of coefficients).** The statement of
+`C17_reconstruction_error_bound` for every even filter length `n ≥ 2`:
+`|idaubechies(daubechies f) y x − f y x| ≤ (2d + d²)·M` with `d = errConst cs`, and with `d = (n − 1)/2·ε` when the
+quadrature-mirror identities hold within `ε`, at every pixel with `y, x ≥ n − 2` of every even-sided image with
+`|f| ≤ M`, over every ordered field. -/
+theorem C17_reconstruction_error_bound_general {K : Type} [Field K] [LinearOrder K] [IsStrictOrderedRing K]
+    (cs : List K) (heven : cs.length % 2 = 0) (hpos : 2 ≤ cs.length) (N0 N1 : Nat) (h0 : N0 % 2 = 0)
+    (h1 : N1 % 2 = 0) (f : Im K) (M : K) (hM : 0 ≤ M) (hf : ∀ y x, y < N0 → x < N1 → |f y x| ≤ M)
+    (y x : Nat) (hy : cs.length ≤ y + 2) (hyN : y < N0) (hx : cs.length ≤ x + 2) (hxN : x < N1) :
+    |idaubechies2 cs N0 N1 (daubechies2 cs N0 N1 f) y x - f y x|
+        ≤ (2 * errConst cs + errConst cs ^ 2) * M ∧
+    (∀ eps : K, (∀ s, s < cs.length / 2 → |resid cs s| ≤ eps) →
+      |idaubechies2 cs N0 N1 (daubechies2 cs N0 N1 f) y x - f y x|
+        ≤ (2 * (((cs.length - 1 : Nat) : K) / 2 * eps) + (((cs.length - 1 : Nat) : K) / 2 * eps) ^ 2) * M) := by
+  have hb := abs_round_trip_2d_le cs (rowIdentity_general (two_ne_zero) cs heven hpos) N0 N1 h0 h1 f M hM hf
+    y x hy hyN hx hxN
+  refine ⟨hb, ?_⟩
+  intro eps heps
+  have hd := errConst_le cs heven eps heps
+  have d0 := errConst_nonneg cs
+  refine le_trans hb (mul_le_mul_of_nonneg_right ?_ hM)
+  have hsq : errConst cs ^ 2 ≤ (((cs.length - 1 : Nat) : K) / 2 * eps) ^ 2 := pow_le_pow_left₀ d0 hd 2
+  linarith
+
+/-- non-vacuity of the general theorems beyond the generated lengths: a 22-tap list (longer than `D20`) made of
+the exact four-tap filter `(3/5, 6/5, 2/5, −1/5)` shifted by 8 satisfies the identities, has even length, and is
+not covered by `prLengths` -/
+example : qmfExact ((List.replicate 8 0 ++ [3 / 5, 6 / 5, 2 / 5, -1 / 5] ++ List.replicate 10 0 : List Rat)) ∧
+    ((List.replicate 8 0 ++ [3 / 5, 6 / 5, 2 / 5, -1 / 5] ++ List.replicate 10 0 : List Rat)).length = 22 ∧
+    22 ∉ prLengths := by
+  refine ⟨?_, by decide, by decide⟩
+  unfold qmfExact
+  decide +kernel
+
+/-- **C17-T2 (`haar_is_orthogonal`).** The energy-preserving Haar transform preserves the inner product of any two
+images with even sides: `⟨haar f, haar g⟩ = ⟨f, g⟩` (`inner2`, the sum of the pixelwise products) — its matrix `T`
+satisfies `TᵀT = I`, it is an orthogonal matrix. (Polarisation of `C17_haar_energy` with `C17_linear_haar`; `2 ≠ 0`.) -/
+theorem C17_haar_is_orthogonal {K : Type} [Field K] (h2 : (2 : K) ≠ 0) (N0 N1 : Nat)
+    (h0 : N0 % 2 = 0) (h1 : N1 % 2 = 0) (f g : Im K) :
+    inner2 N0 N1 (haar2 true N0 N1 f) (haar2 true N0 N1 g) = inner2 N0 N1 f g := by
+  have key : ∀ u v : Im K, energy N0 N1 (fun y x => u y x + v y x)
+      = energy N0 N1 u + energy N0 N1 v + 2 * inner2 N0 N1 u v := by
+    intro u v
+    unfold energy inner2
+    rw [← sumTo_mul, ← sumTo_add, ← sumTo_add]
+    apply sumTo_congr
+    intro y _
+    rw [← sumTo_mul, ← sumTo_add, ← sumTo_add]
+    apply sumTo_congr
+    intro x _
+    ring
+  have lin : haar2 true N0 N1 (fun y x => f y x + g y x)
+      = fun y x => haar2 true N0 N1 f y x + haar2 true N0 N1 g y x := by
+    funext y x
+    have := C17_linear_haar true N0 N1 1 1 f g y x
+    simpa only [one_mul] using this
+  have E := C17_haar_energy h2 N0 N1 h0 h1 (fun y x => f y x + g y x)
+  rw [lin, key, key, C17_haar_energy h2 N0 N1 h0 h1 f, C17_haar_energy h2 N0 N1 h0 h1 g] at E
+  have : 2 * inner2 N0 N1 (haar2 true N0 N1 f) (haar2 true N0 N1 g) = 2 * inner2 N0 N1 f g := by
+    linear_combination E
+  exact mul_left_cancel₀ h2 this
+
+/-- non-vacuity: two concrete 2×2 images over ℚ with a non-zero inner product, before and after the transform -/
+example : inner2 2 2 (fun y x => ((3 * y + x + 1 : Nat) : Rat)) (fun y x => ((y + 2 * x : Nat) : Rat)) = 23 ∧
+    inner2 2 2 (haar2 true 2 2 (fun y x => ((3 * y + x + 1 : Nat) : Rat)))
+      (haar2 true 2 2 (fun y x => ((y + 2 * x : Nat) : Rat))) = 23 := by
+  constructor <;> norm_num [inner2, sumTo, haar2, colsPass, rowsPass, haarRow, two, zero]
+
+/-! ## Round 3: energy of the Daubechies transform -/
+
+/-- `energy` (the `sumTo` form used by `C17_haar_energy`) is the `Finset` double sum `energy2` of `Proofs/C17Energy.lean` -/
+theorem energy_eq_energy2 {K : Type} [Field K] (N0 N1 : Nat) (g : Im K) : energy N0 N1 g = energy2 N0 N1 g :=
+  (energy2_eq_sumTo N0 N1 g).symm
+
+/-- **C17 (`daubechies_energy_bound`).** Energy of the Daubechies analysis transform for coefficient lists that
+satisfy the quadrature-mirror identities only approximately — every even number `n ≥ 2` of coefficients, no other
+hypothesis on them, every ordered field. For every even-sided image that vanishes in its first `n − 2` rows and
+columns (what embedding with `wavelet_center`, fill value 0, at offsets `≥ n − 2` provides; without a margin the code
+drops the analysis samples of negative index and the energy is *not* conserved even by an exact filter):
+
+`|Σ (daubechies f)² − 4·Σ f²| ≤ (8d + 4d²)·Σ f²`, `d = errConst cs = ½ Σ_{j<n−1} |resid cs |j − (n/2−1)||`
+
+(the factor 4 is the normalisation `Σ c_k² = 2` per axis, as for the unnormalised Haar transform `D2`); if every
+identity holds within `ε` the same with `d = (n − 1)/2·ε`; and for exactly quadrature-mirror coefficients
+`Σ (daubechies f)² = 4·Σ f²`. (Proof, `Proofs/C17Energy.lean`: the synthesis kernel is half the transpose of the analysis
+kernel on such rows — `wavelet_adjoint` — so `Σ (Wf)² = 2 Σ f·iW(Wf) = 2Σf² + 2Σ f·errRow f` by the row identity;
+`|Σ_x f[x] f[x+2s]| ≤ Σ f²`.) -/
+theorem C17_daubechies_energy_bound {K : Type} [Field K] [LinearOrder K] [IsStrictOrderedRing K]
+    (cs : List K) (heven : cs.length % 2 = 0) (hpos : 2 ≤ cs.length) (N0 N1 : Nat) (h0 : N0 % 2 = 0)
+    (h1 : N1 % 2 = 0) (f : Im K)
+    (hy0 : ∀ y x, y < N0 → x < N1 → y + 2 < cs.length → f y x = 0)
+    (hx0 : ∀ y x, y < N0 → x < N1 → x + 2 < cs.length → f y x = 0) :
+    |energy N0 N1 (daubechies2 cs N0 N1 f) - 4 * energy N0 N1 f|
+        ≤ (8 * errConst cs + 4 * errConst cs ^ 2) * energy N0 N1 f ∧
+    (∀ eps : K, (∀ s, s < cs.length / 2 → |resid cs s| ≤ eps) →
+      |energy N0 N1 (daubechies2 cs N0 N1 f) - 4 * energy N0 N1 f|
+        ≤ (8 * (((cs.length - 1 : Nat) : K) / 2 * eps) + 4 * (((cs.length - 1 : Nat) : K) / 2 * eps) ^ 2)
+            * energy N0 N1 f) ∧
+    (qmfExact cs → energy N0 N1 (daubechies2 cs N0 N1 f) = 4 * energy N0 N1 f) := by
+  have hb := abs_daubechies2_energy_le_of_lt cs heven (rowIdentity_general two_ne_zero cs heven hpos)
+    N0 N1 h0 h1 f hy0 hx0
+  rw [← energy_eq_energy2, ← energy_eq_energy2] at hb
+  have hE : 0 ≤ energy N0 N1 f := by
+    rw [energy_eq_energy2]
+    unfold energy2
+    exact Finset.sum_nonneg fun y _ => Finset.sum_nonneg fun x _ => sq_nonneg _
+  have d0 := errConst_nonneg cs
+  have hmono : ∀ eps : K, (∀ s, s < cs.length / 2 → |resid cs s| ≤ eps) →
+      |energy N0 N1 (daubechies2 cs N0 N1 f) - 4 * energy N0 N1 f|
+        ≤ (8 * (((cs.length - 1 : Nat) : K) / 2 * eps) + 4 * (((cs.length - 1 : Nat) : K) / 2 * eps) ^ 2)
+            * energy N0 N1 f := by
+    intro eps heps
+    have hd := errConst_le cs heven eps heps
+    refine le_trans hb (mul_le_mul_of_nonneg_right ?_ hE)
+    have hsq : errConst cs ^ 2 ≤ (((cs.length - 1 : Nat) : K) / 2 * eps) ^ 2 := pow_le_pow_left₀ d0 hd 2
+    linarith
+  refine ⟨hb, hmono, ?_⟩
+  intro hq
+  have hr := (qmfExact_iff_resid cs).mp hq
+  have h := hmono 0 (fun s hs => by rw [hr s hs, abs_zero])
+  simp only [mul_zero, ne_eq, OfNat.ofNat_ne_zero, not_false_eq_true, zero_pow, add_zero, zero_mul] at h
+  exact sub_eq_zero.mp (abs_eq_zero.mp (le_antisymm h (abs_nonneg _)))
+
+/-- **C17 (`daubechies_energy_bound` after `wavelet_center`).** For an image embedded by `wavelet_center` with fill
+value 0 at offsets `d0, d1 ≥ n − 2` into an even-sided image (`C17_center_margin`), the bound of
+`C17_daubechies_energy_bound` holds for the embedded image, whatever `f` is. -/
+theorem C17_daubechies_energy_centered {K : Type} [Field K] [LinearOrder K] [IsStrictOrderedRing K]
+    (cs : List K) (heven : cs.length % 2 = 0) (hpos : 2 ≤ cs.length) (N0 N1 d0 d1 M0 M1 : Nat)
+    (hM0 : M0 % 2 = 0) (hM1 : M1 % 2 = 0) (hd0 : cs.length ≤ d0 + 2) (hd1 : cs.length ≤ d1 + 2) (f : Im K) :
+    |energy M0 M1 (daubechies2 cs M0 M1 (center N0 N1 d0 d1 0 f)) - 4 * energy M0 M1 (center N0 N1 d0 d1 0 f)|
+      ≤ (8 * errConst cs + 4 * errConst cs ^ 2) * energy M0 M1 (center N0 N1 d0 d1 0 f) := by
+  refine (C17_daubechies_energy_bound cs heven hpos M0 M1 hM0 hM1 (center N0 N1 d0 d1 0 f) ?_ ?_).1
+  · intro y x _ _ hy
+    have : ¬ (d0 ≤ y ∧ y < d0 + N0 ∧ d1 ≤ x ∧ x < d1 + N1) := by omega
+    simp only [center, this, if_false]
+  · intro y x _ _ hx
+    have : ¬ (d0 ≤ y ∧ y < d0 + N0 ∧ d1 ≤ x ∧ x < d1 + N1) := by omega
+    simp only [center, this, if_false]
+
+/-- the energy constants of the generated tables, by exact rational arithmetic: `8d + 4d² ≤ 4·tableTol[code]` -/
+theorem tables_energy_consts :
+    (List.range 10).all (fun code =>
+      decide ((coeffsOf code : List ℚ).length = 2 * (code + 1)) &&
+      decide (8 * errConst (coeffsOf code : List ℚ) + 4 * errConst (coeffsOf code : List ℚ) ^ 2
+        ≤ 4 * tableTol.getD code 0)) = true := by decide +kernel
+
+/-- **C17 (energy of the ten generated tables).** For each table `D2 … D20` the translator extracts (the float32
+values the compiler stores, as exact rationals) and every even-sided rational image vanishing in its first
+`ncoeffs − 2` rows and columns: `|Σ (daubechies f)² − 4·Σ f²| ≤ 4·tableTol[code]·Σ f²` — relative energy defect at most
+`tableTol = (0, 1.3e-7, 1.9e-7, 2.5e-6, 1.7e-7, 7e-8, 8.1e-7, 1.5e-7, 7e-8, 1.1e-7)`, the same constants as the
+reconstruction tolerance (`C17_tables_error_bound`). Exact arithmetic; the floating-point rounding of the kernels is
+not covered. -/
+theorem C17_tables_energy_bound (code : Nat) (hc : code < 10) (N0 N1 : Nat) (h0 : N0 % 2 = 0) (h1 : N1 % 2 = 0)
+    (f : Im ℚ)
+    (hy0 : ∀ y x, y < N0 → x < N1 → y + 2 < 2 * (code + 1) → f y x = 0)
+    (hx0 : ∀ y x, y < N0 → x < N1 → x + 2 < 2 * (code + 1) → f y x = 0) :
+    |energy N0 N1 (daubechies2 (coeffsOf code) N0 N1 f) - 4 * energy N0 N1 f|
+      ≤ 4 * tableTol.getD code 0 * energy N0 N1 f := by
+  have h := List.all_eq_true.mp tables_energy_consts code (List.mem_range.mpr hc)
+  simp only [Bool.and_eq_true, decide_eq_true_eq] at h
+  obtain ⟨hlen, htol⟩ := h
+  have hb := (C17_daubechies_energy_bound (coeffsOf code : List ℚ) (by rw [hlen]; omega) (by rw [hlen]; omega)
+    N0 N1 h0 h1 f (by rw [hlen]; exact hy0) (by rw [hlen]; exact hx0)).1
+  have hE : 0 ≤ energy N0 N1 f := by
+    rw [energy_eq_energy2]
+    unfold energy2
+    exact Finset.sum_nonneg fun y _ => Finset.sum_nonneg fun x _ => sq_nonneg _
+  exact le_trans hb (mul_le_mul_of_nonneg_right htol hE)
+
+/-- non-vacuity of the support hypothesis and of the energy identity: the exact four-tap filter
+`(3/5, 6/5, 2/5, −1/5)` on the 4×4 image that is 1 at `(2, 2)` and 0 elsewhere (it vanishes in its first two rows
+and columns): the transform has energy `4 = 4·1` -/
+example : energy 4 4 (daubechies2 ([3 / 5, 6 / 5, 2 / 5, -1 / 5] : List ℚ) 4 4
+      (fun y x => if y = 2 ∧ x = 2 then 1 else 0)) = 4 ∧
+    energy 4 4 (fun y x => if y = 2 ∧ x = 2 then (1 : ℚ) else 0) = 1 := by
+  constructor <;> decide +kernel
